@@ -499,6 +499,18 @@ def _measure_work(args):
         if ext.fields["pk_cost"] != real_len:
             out.append(("bad", "ext.pk_cost = %r, the script has %d bytes" % (ext.fields["pk_cost"], real_len)))
         sd = ext.fields["sat_data"]
+        # the public accessors read the same figures
+        for nm, want_of in (("max_satisfaction_size", lambda d: d.fields["max_witness_stack_size"]),
+                            ("max_satisfaction_witness_elements", lambda d: d.fields["max_witness_stack_count"] + 1)):
+            q = [x for x in F.fns if x.endswith("miniscript::private::Miniscript::<Pk, Ctx>::" + nm)]
+            if len(q) == 1:
+                rr = T_.m.call_callee({"def": q[0], "resolved": q[0], "name": nm, "targs": ["std::string::String", c06.CTX[ctx]]}, [ms])
+                if sd.variant == "Some":
+                    w_ = want_of(sd.fields["0"])
+                    if not (isinstance(rr, Adt) and rr.variant == "Ok" and rr.fields["0"] == w_):
+                        out.append(("bad", "%s() gives %r, the announced figure is %r" % (nm, rr, w_)))
+                elif not (isinstance(rr, Adt) and rr.variant == "Err"):
+                    out.append(("bad", "%s() gives %r although no satisfaction exists" % (nm, rr)))
         S = e2e.Sat(F)
         mdl = e2e.to_model(F, ast, ctx)
         keys, hashes = e2e.keys_hashes(ast)
